@@ -147,6 +147,9 @@ pub fn below(n: u64) -> u64 {
 // is open on the *current simulated thread*, a facade park is recorded as a violation.
 // (Tracked per simulated thread through a shuttle thread-local in chan.rs.)
 pub(crate) fn note_no_park_violation() {
+  if std::env::var("VERIF_BT").is_ok() {
+    println!("NO-PARK VIOLATION\n{}", std::backtrace::Backtrace::force_capture());
+  }
   NO_PARK_VIOLATIONS.with(|s| s.set(s.get() + 1));
 }
 
